@@ -4,11 +4,13 @@
    PutObject is read back by GetObject with exactly the uploaded blob, its ETag symbol, the supplied content type and user
    metadata (new key or overwrite, any depth of implied directories). The model has no state besides the tree, so the answer
    cannot depend on which process serves the request or on restarts (C01_stateless is the type of [step]).
-   NOT proved (kept visible): the refinement of the whole operation set (copy, multipart completion, tags, the other five
-   content headers, every payload encoding) to the abstract S3 map; those are evaluated on every run by the Spec directly on
-   the real gateway's answers (read-back after every acknowledged upload, in four storage configurations). *)
+   Also proved: the frame of an upload, and the refinement of the model's whole operation set (CreateBucket, PutObject of file and
+   directory keys, GetObject, DeleteObject, ListObjectsV2) to the abstract map from file keys to what is stored, for every history.
+   NOT proved (kept visible): copy, multipart completion, tags, the other five content headers and the payload encodings are not
+   operations of this model; those are evaluated on every run by the Spec directly on the real gateway's answers (read-back after
+   every acknowledged upload, in four storage configurations). *)
 From Coq Require Import String Ascii List Arith Bool.
-From VGW Require Import Base.GoStr Model.Walk Model.Paths Model.Posix Proofs.PosixProof Proofs.PosixFrame.
+From VGW Require Import Base.GoStr Model.Walk Model.Paths Model.Posix Proofs.PosixProof Proofs.PosixFrame Proofs.PosixWF.
 Import ListNotations.
 Open Scope string_scope.
 
@@ -40,6 +42,22 @@ Theorem C01_put_changes_only_its_key : forall root b key blob len ctype meta roo
 Proof. exact put_frame. Qed.
 Print Assumptions C01_put_changes_only_its_key.
 
+(* refinement to the abstract map, over histories: from the empty store, after ANY sequence of operations of the model, the tree and the
+   map (updated only by acknowledged uploads and acknowledged deletes of file keys) agree on every file key; hence a GetObject answers
+   with the last acknowledged upload of its key that no acknowledged delete followed, or with NoSuchKey *)
+Theorem C01_history_refines_map : forall ops root m, WF root -> (forall q, m q = getf root q) ->
+  forall q, snd (run_abs_all root m ops) q = getf (fst (run_abs_all root m ops)) q.
+Proof. exact history_refines_map_all. Qed.
+Print Assumptions C01_history_refines_map.
+
+Theorem C01_read_after_any_history : forall ops b key, ends_slash key = false ->
+  let st := run_abs_all root0 (fun _ => None) ops in
+  snd (step (fst st) (GetObject b key)) =
+    if negb (valid_object_name key) then O_err InvalidURI else if negb (bucket_ok (fst st) b) then O_err NoSuchBucket
+    else get_answer (snd st (b :: segs key)).
+Proof. exact read_after_any_history. Qed.
+Print Assumptions C01_read_after_any_history.
+
 (* reads do not change the tree: a GET between an upload and a later GET changes nothing *)
 Theorem C01_get_is_pure : forall root b key, fst (step root (GetObject b key)) = root.
 Proof.
@@ -70,3 +88,12 @@ Example C01_example_frame :
              PutObject "bk1" "a/c/d" 3 1 "" []; PutObject "bk1" "a/bb" 4 1 "" []; GetObject "bk1" "a/b"; GetObject "bk2" "a/b"; GetObject "bk1" "a/c"; GetObject "bk1" "a/b/x"] =
   [O_ok; O_ok; O_ok; O_ok; O_ok; O_ok; O_get (Some 1) "E1" "t/1" [("m", "1")]; O_get (Some 2) "E2" "binary/octet-stream" []; O_err NoSuchKey; O_err NoSuchKey].
 Proof. vm_compute. reflexivity. Qed.
+
+(* non-vacuity of the history theorem: the abstract map after a history with overwrites, a refused upload, deletes and directory objects *)
+Example C01_example_history :
+  let ops := [CreateBucket "bk1"; PutObject "bk1" "a/b" 1 3 "" []; PutObject "bk1" "a/b" 2 4 "t/2" [("m", "2")]; PutObject "bk1" "a" 3 1 "" [];
+              PutObject "bk1" "c" 4 1 "" []; DeleteObject "bk1" "c"; PutObject "bk1" "d/" 0 0 "" []; DeleteObject "bk1" "zz"] in
+  let st := run_abs_all root0 (fun _ => None) ops in
+  map (snd st) [["bk1"; "a"; "b"]; ["bk1"; "a"]; ["bk1"; "c"]; ["bk1"; "d"]] = [Some (2, put_attrs 2 "t/2" [("m", "2")]); None; None; None] /\
+  snd (step (fst st) (GetObject "bk1" "a/b")) = O_get (Some 2) "E2" "t/2" [("m", "2")].
+Proof. vm_compute. split; reflexivity. Qed.
